@@ -73,3 +73,19 @@ Qed.
 (** the quantifier is inhabited beyond the identity: rotations / reversals are fair enumerations *)
 Theorem rotations_are_fair : forall k, fair (rot_orders k).
 Proof. exact rot_orders_fair. Qed.
+
+(** the run-time replay of C20/Corr.v stays inside the quantifier of the theorems above: the
+    enumeration that reproduces an observed `vocabulary()` listing is fair, whatever was observed *)
+Theorem observed_orders_are_fair : forall vocab : list string, fair (observed_orders vocab).
+Proof. exact observed_orders_fair. Qed.
+
+(** conversely the order of `vocabulary()` is not constrained at all: every listing of the fitted words
+    is produced by some fair enumeration (which is why only the word -> column map can be compared) *)
+Theorem every_vocabulary_order_is_reachable : forall (s : settings) (train : list (list string)) (vocab : list string),
+  Permutation vocab (snd (fit_ord id_orders s train)) ->
+  exists o, fair o /\ snd (fit_ord o s train) = vocab.
+Proof.
+  intros s train vocab P. exists (observed_orders vocab). split.
+  - apply observed_orders_fair.
+  - exact (observed_order_reproduced s train vocab P).
+Qed.
